@@ -21,4 +21,10 @@ func main() {
 	for _, k := range core.ClosureKeys(p) {
 		fmt.Println(k)
 	}
+	for _, k := range core.TypeKeys(p) {
+		fmt.Println(k)
+	}
+	for _, k := range core.HashKeys(p) {
+		fmt.Println(k)
+	}
 }
